@@ -18,7 +18,7 @@ CONSTANTS Tier
 ParamKinds == {"posonly", "pos", "vararg", "kwonly", "kwarg"}
 ReturnExprs == {"int", "float", "str", "bool", "none", "name", "tuple", "unary", "call", "member", "conditional", "binop", "list", "dict", "set",
                 "compare", "index", "lambda", "listcomp", "fstring", "bytes", "complex", "ellipsis", "await", "boolop", "walrus", "starred-tuple", "self", "yield"}
-Initializers == {"int", "float", "str", "bool", "none", "name", "call", "neg-int", "not-bool", "neg-name", "empty-tuple", "tuple", "list", "dict", "binop",
+Initializers == {"double-sign", "sign-of-signed-float", "plus-minus", "neg-bool", "invert", "neg-str", "huge-float", "int", "float", "str", "bool", "none", "name", "call", "neg-int", "not-bool", "neg-name", "empty-tuple", "tuple", "list", "dict", "binop",
                  "member", "lambda", "bytes", "complex", "ellipsis", "set", "index", "conditional", "fstring"}
 ClassForms == {"generic-paramspec", "generic-typevartuple", "recursive-alias", "recursive-namedtuple", "plain", "nested", "property", "property-setter", "overload", "overload-module", "staticmethod", "classmethod", "abstract", "dataclass", "exception",
                "enum", "intenum", "enum-empty", "nested-enum", "generic", "generic-bound", "generic-constraints", "generic-variance", "protocol", "namedtuple",
